@@ -45,7 +45,9 @@ static const char *T5[] = {	/* nullable loop bodies: soundness and leftmost only
 	"(x|y*)*z", "(x*y*)*z",
 #endif
 	NULL};
-static const char **TS[] = {T0, T1, T2, T3, T4, T5};
+static const char *T6[] = {	/* open-ended bounds with a minimum above one: the back edge of the loop (lines of 3 characters even in the quick tier) */
+	"x{2,}", "^x{2,}$", "x{2,}y", "(x|y){2,}", "[xy]{2,}z", ".{2,}x", "(x){2,}", "x{2,}x", NULL};
+static const char **TS[] = {T0, T1, T2, T3, T4, T5, T6};
 
 void harness(void)
 {
